@@ -36,6 +36,8 @@ CLAIMS = {
          "NOT covered: the fixed-width text layout (texttab) and text/CSV agreement"),
  "C17": ("partial: gating, direction, order, fence. Bounded symbolic execution of Collection.AddResults/Tables, Sort and Metrics.computeStats with symbolic measurement values (number parser stubbed), symbolic p/alpha through the public DeltaTest hook: delta shown iff no error and p < alpha, percentage formula, better-direction flag, note classes, first-appearance or stable sorted row order, retained values exactly those inside the 1.5-IQR fences",
          "NOT covered: mean of several values and min<=mean<=max (float chains time out), geomean, built-in tests' p-values, formatting; old values concrete"),
+ "C18": ("partial: order independence, sample membership and the percentile kernel. Bounded symbolic execution of benchseries.Builder.Add/AllComparisonSeries on results whose experiment stamp, series stamp (two timestamp formats of one instant) and role are symbolic choices, added in every permutation with small maps iterated in arbitrary order under both duplicate policies; the percentile/median helpers on sorted symbolic float ratios (cvc5)",
+         "NOT covered: the bootstrap resampling and its reproducibility, date normalisation of arbitrary text; stamps are choices among concrete strings (timestamp parsing runs natively). Open known finding: the percentile interpolation leaves [a,b] by a rounding error (pinned by cmd/benchseries golden files)"),
  "C19": ("partial: everything before SQL. Bounded symbolic execution of query-word parsing, per-key term merging (denotation of the merged part at a symbolic probe value equals the conjunction of the operands), the generated subselect templates evaluated on a symbolic record, shell-style word splitting, the front end's real quoting function, and the legacy printer/reader round trip",
          "NOT covered: execution of the SQL by sqlite3/MySQL, joins, listing counts/order/limit, HTTP (cgo/network code cannot be executed symbolically); bounded by word/value lengths"),
 }
